@@ -52,9 +52,25 @@ class GatePolicy(taint.Policy):
             if getattr(self, "_succctx", None) is None:
                 from .absint import SuccCtx
                 self._succctx = SuccCtx(self.f)
-            d = descr.Describer(self.f, eng.body(fn), rets=lambda fid: self.ret_desc(eng, fid), ctx=self._succctx)
+            d = descr.Describer(self.f, eng.body(fn), rets=lambda fid: self.ret_desc(eng, fid), ctx=self._succctx,
+                                ret_slices=lambda fid, path: self.ret_slice(eng, fid, path))
             self.descs[fn["id"]] = d
         return d
+
+    def ret_slice(self, eng, fid, path):
+        """slice descriptor (callee terms) found at `path` of what local function fid returns"""
+        key = ("S", fid, path)
+        if key in self.retmemo:
+            return self.retmemo[key]
+        self.retmemo[key] = None
+        fn = self.f.fns.get(fid)
+        if fn is not None and fid not in self.retbusy:
+            self.retbusy.add(fid)
+            try:
+                self.retmemo[key] = self.describer(eng, fn).returned_slice(path)
+            finally:
+                self.retbusy.discard(fid)
+        return self.retmemo[key]
 
     def ret_desc(self, eng, fid):
         """Descriptor (in the callee's own parameter terms) of the integer a local function returns."""
@@ -257,7 +273,7 @@ class GateAnalysis(taint.FnAnalysis):
                 for x in l[2]:
                     if x is None:
                         na.append(None)
-                    elif x[0] in ("p", "l", "bswap", "sub", "subp"):
+                    elif x[0] in ("p", "l", "bswap", "sub", "subp", "subv"):
                         na.append(dsc.subst_slice(x, args) or ("l", "?"))
                     else:
                         na.append(dsc.subst_value(x, args))
@@ -306,8 +322,25 @@ def label_str(l, pol=None, fn=None):
             kind = "lencmp"
         elif D[0] in ("elem", "be", "le"):
             kind = "elemcmp"
-        return "%s:%s %s %s" % (kind, txt, l[2], l[3])
+        op, c = canon_cmp(l[2], l[3])
+        return "%s:%s %s %s" % (kind, txt, op, c)
     return None
+
+
+def canon_cmp(op, c):
+    """One spelling per test: `x == c` / `x != c` -> Ne c;  `x < c`, `x >= c`, `x <= c-1`, `x > c-1` -> Lt c.
+    (Which outcome rejects is the business of G12, not of the fact's name.)"""
+    if op == "Eq":
+        return "Ne", c
+    if op in ("Lt", "Ge", "Le", "Gt"):
+        try:
+            v = int(c)
+        except (TypeError, ValueError):
+            return {"Ge": "Lt", "Gt": "Le"}.get(op, op), c
+        if op in ("Le", "Gt"):
+            v += 1
+        return "Lt", str(v)
+    return op, c
 
 
 # ---------------------------------------------------------------------------
